@@ -65,9 +65,21 @@ def random_cases(rng, n, max_numel=6000):
 
 
 def compare_case(ctx, case, exp):
-    real = adapter.real_blocking(case["shape"], case["thr"], case["merge"])
+    pl, gl = case.get("playout", "contig"), case.get("glayout", "contig")
+    real = adapter.real_blocking(case["shape"], case["thr"], case["merge"], playout=pl, glayout=gl)
     exp_merged = list(exp["merged"]) if exp["merged"] else []
     problems = []
+    # memory layouts the code cannot view without a copy may be refused (RuntimeError), never silently mis-blocked or copied
+    if "refused" in real:
+        if adapter.viewable(case["shape"], pl, exp_merged):
+            ctx.violation(f"Distributor refuses {case} although the parameter can be viewed as {exp_merged}: {real['msg']}",
+                          {"kind": "blocking_oracle", "clause": "refused"}, {"case": case})
+            return False
+        return True
+    if "grad_refused" in real:
+        if adapter.viewable(case["shape"], gl, exp_merged):
+            problems.append(("gradient_refused", "blocks of the gradient", real["grad_refused"]))
+        real["gidx"], real["gshapes"], real["g_same_storage"] = [list(s) if s else [] for s in exp["idx"]], [list(s) if s else [] for s in exp["shapes"]], True
     if real["merged"] is not None and real["merged"] != exp_merged:
         problems.append(("merged_shape", exp_merged, real["merged"]))
     exp_shapes = [list(s) if s else [] for s in exp["shapes"]]
@@ -109,7 +121,16 @@ def run(ctx):
     cases = list(all_cases(o, d, t))
     rng = random.Random(ctx.seed)
     cases += random_cases(rng, 300 if quick else 6000)
-    exp = oracle_eval(cases)
+    # memory layouts: parameters / gradients that are offset views, transposed or strided slices of larger buffers
+    lay = [(p_, g_) for p_ in ("contig", "offset", "transposed", "sliced") for g_ in ("contig", "offset", "transposed", "sliced")][1:]
+    small = [c for c in all_cases(3, 3, 3)]
+    for i, c in enumerate(small if not quick else small[::3]):
+        for p_, g_ in (lay if not quick else [lay[(i + j) % len(lay)] for j in range(4)]):
+            cases.append(dict(c, playout=p_, glayout=g_))
+    for c in random_cases(rng, 60 if quick else 1500, max_numel=2000):
+        p_, g_ = rng.choice(lay)
+        cases.append(dict(c, playout=p_, glayout=g_))
+    exp = oracle_eval([{k: c[k] for k in ("shape", "thr", "merge")} for c in cases])
     assert len(exp) == len(cases)
     nontrivial = set()
     for c, e in zip(cases, exp):
@@ -123,7 +144,8 @@ def run(ctx):
     ctx.put("rule", f"every shape of order 0..{o} with dims 1..{d} x max_preconditioner_dim 1..{t} x merge on/off "
                     f"(exhaustive; TLC checks the tiling invariants on each and evaluates the expected blocks, which are "
                     f"compared with the real Distributor's parameter and gradient blocks: indices, order, shapes, storage "
-                    f"aliasing, write-through) plus seeded random larger shapes; non-trivial = more than one block or a "
+                    f"aliasing, write-through) plus seeded random larger shapes, and the same comparison with parameters / gradients held as offset "
+                    f"views, transposed or strided slices of larger buffers (a layout that cannot be viewed may only be refused); non-trivial = more than one block or a "
                     f"merged shape different from the original")
     ctx.sample({"case": cases[len(cases) // 2], "expected_blocks": exp[len(cases) // 2]["shapes"][:6]})
     ctx.sample({"case": cases[-1], "expected_merged": exp[-1]["merged"], "n_blocks": len(exp[-1]["shapes"])})
@@ -134,6 +156,6 @@ def run(ctx):
 
 def replay(ctx, data):
     case = data["replay"]["case"]
-    exp = oracle_eval([case])
+    exp = oracle_eval([{k: case[k] for k in ("shape", "thr", "merge")}])
     compare_case(ctx, case, exp[0])
     ctx.add("evaluations")
